@@ -538,23 +538,30 @@ func runDifferential(t *testing.T, s *verifh.Sink, vec, row *srv, kp, la, lb str
 		s.Inconclusive("side " + la + " did not hold all rows within the settle bound")
 		return
 	}
-	// every side (and the second coordinator) holds dataset T before it is queried
+	// every side (and the second coordinator) holds datasets T and C completely before they are queried; with
+	// replicas a query is answered by one copy per shard, so a run of consecutive complete answers is required
 	for _, sv := range []*srv{vec, row, vec.alt} {
 		if sv == nil {
 			continue
 		}
-		ok := false
-		for i := 0; i < 240 && !ok; i++ {
-			resp, err := sv.queryMeasure(&measurev1.QueryRequest{Groups: []string{"ga"}, Name: "mt", TimeRange: tsRange(lo, hi), Limit: 1000000,
-				TagProjection:   &modelv1.TagProjection{TagFamilies: []*modelv1.TagProjection_TagFamily{{Name: "default", Tags: []string{"uid"}}}},
-				FieldProjection: &measurev1.QueryRequest_FieldProjection{Names: []string{"v"}}})
-			if ok = err == nil && len(resp.DataPoints) == len(trows); !ok {
-				time.Sleep(500 * time.Millisecond)
+		for name, n := range map[string]int{"mt": len(trows), "mb": len(brows)} {
+			streak := 0
+			for i := 0; i < 480 && streak < 8; i++ {
+				resp, err := sv.queryMeasure(&measurev1.QueryRequest{Groups: []string{"ga"}, Name: name, TimeRange: tsRange(lo, hi), Limit: 1000000,
+					TagProjection:   &modelv1.TagProjection{TagFamilies: []*modelv1.TagProjection_TagFamily{{Name: "default", Tags: []string{"uid"}}}},
+					FieldProjection: &measurev1.QueryRequest_FieldProjection{Names: []string{"v"}}})
+				if err == nil && len(resp.DataPoints) == n {
+					streak++
+					time.Sleep(50 * time.Millisecond)
+				} else {
+					streak = 0
+					time.Sleep(500 * time.Millisecond)
+				}
 			}
-		}
-		if !ok {
-			s.Inconclusive("dataset T was not completely queryable on every side within the settle bound")
-			return
+			if streak < 8 {
+				s.Inconclusive("dataset " + name + " was not completely queryable on every side within the settle bound")
+				return
+			}
 		}
 	}
 	if kp == "c15" {
